@@ -4,6 +4,7 @@
 # every mutant compiles and keeps `go test ./util/hamt/ ./db19/meta/` green):
 #   see the table at the end of this file (MUTANTS), maintained by hand.
 
+import os
 import re
 
 META = {
@@ -23,16 +24,36 @@ META = {
 
 
 def run(ctx):
+    if os.environ.get("VERIF_C15_SKIP_MC") != "1":     # (knob for mutation testing of the driver only)
+        model_check(ctx)
+    conformance(ctx)
+
+
+def model_check(ctx):
     # 1. design level: exhaustive TLC on MetaChain.tla
     ctx.tlc_mc("MC_MetaChain.tla", "MetaChain_quick.cfg", timeout=300)
     ctx.tlc_mc("MC_MetaChain.tla", "MetaChain_quick2.cfg", timeout=300)
     if ctx.thorough():
         ctx.tlc_mc("MC_MetaChain.tla", "MetaChain_thorough.cfg", timeout=1500)
         ctx.tlc_mc("MC_MetaChain.tla", "MetaChain_thorough3.cfg", timeout=1500)
+        ctx.tlc_mc("MC_MetaChain.tla", "MetaChain_thorough3b.cfg", timeout=1500)
     # anti-vacuity: with the F7 behaviour (emptied flatten keeps the old chain) the model must fail
     ctx.tlc_mc("MC_MetaChain.tla", "MetaChain_dev_f7.cfg", timeout=300,
                expect_violation="ReopenSeesPersisted", count=False)
+    # the hash-trie level: with / without / pullUp with generation based path copying on a
+    # shared heap of nodes, several versions alive, keys colliding on every level
+    ctx.tlc_mc("MC_HamtTrie.tla", "HamtTrie_quick.cfg", timeout=300)
+    if ctx.thorough():
+        ctx.tlc_mc("MC_HamtTrie.tla", "HamtTrie_thorough.cfg", timeout=1500)
+        ctx.tlc_mc("MC_HamtTrie.tla", "HamtTrie_thorough3.cfg", timeout=1500)
+    # anti-vacuity: a path copy left out must break a frozen version in the model
+    ctx.tlc_mc("MC_HamtTrie.tla", "HamtTrie_dev_pullup.cfg", timeout=300, expect_violation="GetOK", count=False)
+    if ctx.thorough():
+        ctx.tlc_mc("MC_HamtTrie.tla", "HamtTrie_dev_without.cfg", timeout=300, expect_violation="GetOK", count=False)
+        ctx.tlc_mc("MC_HamtTrie.tla", "HamtTrie_dev_mutable.cfg", timeout=300, expect_violation="OwnNodesPrivate", count=False)
 
+
+def conformance(ctx):
     # 2. conformance: the real hamt / chain / meta code, validated by TraceMetaChain
     drv = ctx.go_build("metachain")
     trace = ctx.work + "/metachain.ndjson"
